@@ -52,7 +52,21 @@ Proof.
     apply IH; [lia | lia | destruct cr; lia | eapply Forall_impl; [|exact Hacc]; intros m; apply meta_ok_mono; lia].
 Qed.
 
-Definition read_inv (s : sreader) : Prop :=
+Section SRC.
+Variable Src : Type.
+Variable rd : Src -> option (list N) * Src.
+Variable iend : Src -> bool.
+Variable stream_rest : Src -> list N.
+Variable esr_inv : Src -> Prop.
+Hypothesis rd_spec : forall e, esr_inv e ->
+  match rd e with
+  | (Some chunk, e') => chunk <> [] /\ chunk ++ stream_rest e' = stream_rest e /\ True /\ esr_inv e'
+  | (None, e') => stream_rest e = [] /\ stream_rest e' = [] /\ iend e' = true /\ esr_inv e'
+  end.
+Hypothesis iend_spec : forall e, esr_inv e -> iend e = true -> stream_rest e = [].
+Local Notation remaining := (remaining stream_rest).
+
+Definition read_inv (s : sreader Src) : Prop :=
   (s_pos s <= length (s_buf s))%nat /\ Forall (meta_ok (s_pos s)) (s_metas s).
 
 Lemma unescape_loop_length l : forall dq, (length (unescape_loop l dq) <= length l)%nat.
@@ -135,7 +149,7 @@ Proof.
   - cbn [read_meta_post]. auto.
 Qed.
 
-Definition s_read_post {A} (s : sreader) (r : outcome (A * sreader)) : Prop :=
+Definition s_read_post {A} (s : sreader Src) (r : outcome (A * sreader Src)) : Prop :=
   match r with
   | Ok (_, s') => s_same s s' /\ length (s_buf s') = length (s_buf s) /\
                   skipn (s_pos s) (s_buf s') = skipn (s_pos s) (s_buf s) /\
@@ -201,21 +215,21 @@ Proof.
 Qed.
 
 (* ParseNextLine on any remaining text *)
-Lemma s_parse_next_line_total K sep : (0 < K)%nat -> forall s fuel,
-  esr_inv (s_esr s) -> s_is_end s = false -> (2 * length (remaining s) + 1 < fuel)%nat ->
-  exists s1, s_parse_next_line fuel K sep s = Ok (true, s1) /\
+Lemma s_parse_next_line_total sep : forall s fuel,
+  esr_inv (s_esr s) -> s_is_end iend s = false -> (2 * length (remaining s) + 1 < fuel)%nat ->
+  exists s1, s_parse_next_line rd iend fuel sep s = Ok (true, s1) /\
     esr_inv (s_esr s1) /\ read_inv s1 /\ s_headers s1 = s_headers s /\ s_validx s1 = s_validx s /\
     (length (remaining s1) <= length (remaining s))%nat /\
     (remaining s <> [] -> (length (remaining s1) < length (remaining s))%nat) /\
-    ((length (s_buf s1) <= s_pos s1)%nat -> esr_is_end (s_esr s1) = true).
+    ((length (s_buf s1) <= s_pos s1)%nat -> iend (s_esr s1) = true).
 Proof.
-  intros HK s fuel Inv He Hfuel.
+  intros s fuel Inv He Hfuel.
   unfold s_parse_next_line. rewrite He.
   set (buf0 := skipn (s_pos s) (s_buf s)) in *.
-  destruct (s_scan_refines K sep HK fuel buf0 buf0 (s_esr s) 0 0 0 None [] Inv) as (ext & e1 & E & Hsr & Inv1 & Hpos).
+  destruct (s_scan_refines rd iend stream_rest esr_inv rd_spec iend_spec sep fuel buf0 buf0 (s_esr s) 0 0 0 None [] Inv) as (ext & e1 & E & Hsr & Inv1 & Hpos).
   { reflexivity. }
-  { unfold remaining in Hfuel. fold buf0 in Hfuel. rewrite app_length in Hfuel. lia. }
-  unfold remaining in Hfuel |- *. fold buf0 in Hfuel |- *.
+  { unfold CsvStreamProofs.remaining in Hfuel. fold buf0 in Hfuel. rewrite app_length in Hfuel. lia. }
+  unfold CsvStreamProofs.remaining in Hfuel |- *. fold buf0 in Hfuel |- *.
   assert (Hprog : buf0 ++ stream_rest (s_esr s) <> [] -> (0 < snd (a_scan sep (buf0 ++ stream_rest (s_esr s)) 0 0 0 None []))%nat).
   { intros Hne. apply a_scan_progress. exact Hne. }
   pose proof (a_scan_metas_ok sep (buf0 ++ stream_rest (s_esr s)) 0 0 0 None [] (le_n _) (le_n _) I (Forall_nil _)) as Hmetas.
@@ -229,8 +243,8 @@ Proof.
   { rewrite <- Hsr, app_length. rewrite app_length in Hpos. lia. }
   destruct (Nat.eqb pos1 (length (buf0 ++ ext))) eqn:Eq.
   - apply Nat.eqb_eq in Eq.
-    pose proof (esr_read_chunk_spec K e1 HK Inv1) as Hrc.
-    destruct (esr_read_chunk K e1) as [[chunk|] e2].
+    pose proof (rd_spec e1 Inv1) as Hrc.
+    destruct (rd e1) as [[chunk|] e2].
     + destruct Hrc as (Hcne & Hsr2 & _ & Inv2).
       eexists. split; [reflexivity|]. cbn [s_esr s_buf s_pos s_metas s_headers s_validx].
       split; [exact Inv2|]. split; [unfold read_inv; cbn; rewrite !app_length in *; split; [lia | exact Hmr]|].
@@ -261,18 +275,18 @@ Proof.
     + lia.
 Qed.
 
-Lemma s_load_rows_total K sep keys : (0 < K)%nat -> forall fuel fl s acc,
-  esr_inv (s_esr s) -> ((length (s_buf s) <= s_pos s)%nat -> esr_is_end (s_esr s) = true) ->
+Lemma s_load_rows_total sep keys : forall fuel fl s acc,
+  esr_inv (s_esr s) -> ((length (s_buf s) <= s_pos s)%nat -> iend (s_esr s) = true) ->
   (length (remaining s) < fuel)%nat -> (2 * length (remaining s) + 1 < fl)%nat ->
-  clean (s_load_rows fuel fl K sep keys s acc).
+  clean (s_load_rows rd iend fuel fl sep keys s acc).
 Proof.
-  intros HK. induction fuel as [|fuel IH]; intros fl s acc Inv Hend Hf Hfl; [lia|].
-  cbn [s_load_rows]. destruct (s_is_end s) eqn:He; [exact I|].
+  induction fuel as [|fuel IH]; intros fl s acc Inv Hend Hf Hfl; [lia|].
+  cbn [s_load_rows]. destruct (s_is_end iend s) eqn:He; [exact I|].
   assert (Hne : remaining s <> []).
-  { intros Hnil. unfold remaining in Hnil. apply app_eq_nil in Hnil. destruct Hnil as [R1 R2].
+  { intros Hnil. unfold CsvStreamProofs.remaining in Hnil. apply app_eq_nil in Hnil. destruct Hnil as [R1 R2].
     apply skipn_nil_length in R1. unfold s_is_end in He. rewrite (proj2 (Nat.leb_le _ _) R1), (Hend R1) in He. discriminate. }
   unfold s_parse_next_row.
-  destruct (s_parse_next_line_total K sep HK s fl Inv He Hfl) as (s1 & E & Inv1 & RI1 & Hh1 & Hv1 & _ & Hlt & Hend1).
+  destruct (s_parse_next_line_total sep s fl Inv He Hfl) as (s1 & E & Inv1 & RI1 & Hh1 & Hv1 & _ & Hlt & Hend1).
   specialize (Hlt Hne).
   rewrite E. cbn [andb negb].
   destruct (negb (Nat.eqb (length (s_headers s1)) (length (s_metas s1)))) eqn:Ew; [exact I|].
@@ -283,7 +297,7 @@ Proof.
   pose proof (s_read_keys_total keys s2 [] RI2 HL2) as T.
   destruct (s_read_keys s2 keys []) as [[cells s3]|[]| | |]; cbn [s_read_post] in T; try contradiction; try exact I.
   destruct T as ((A1&A2&A3&A4&A5&A6) & T2 & T3 & T4 & T5). subst s2. cbn [s_esr s_headers s_pos s_buf s_metas] in *.
-  assert (Hrem : remaining s3 = remaining s1) by (unfold remaining; rewrite A1, A3, T3; reflexivity).
+  assert (Hrem : remaining s3 = remaining s1) by (unfold CsvStreamProofs.remaining; rewrite A1, A3, T3; reflexivity).
   apply IH.
   - rewrite A1. exact Inv1.
   - rewrite A1, A3, T2. exact Hend1.
@@ -291,21 +305,19 @@ Proof.
   - rewrite Hrem. lia.
 Qed.
 
-(* LoadObject<CsvArchive> from a stream is total on every text, for every request and every chunk size *)
-Theorem csv_load_stream_total K sep keys text : (0 < K)%nat -> clean (csv_load_stream K sep keys text).
+(* LoadObject over any sound source that delivers at most n bytes is total *)
+Theorem csv_load_src_total sep keys e0 n : esr_inv e0 -> (length (stream_rest e0) <= n)%nat ->
+  clean (csv_load_src rd iend n sep keys e0).
 Proof.
-  intros HK. unfold csv_load_stream. destruct (negb (validate_separator sep)); [exact I|].
-  destruct (esr_new_spec K text HK) as [Hsr Inv0].
-  assert (Hpl : (length (stream_payload K text) <= length text)%nat).
-  { unfold stream_payload. destruct (starts_with_bom (firstn K text)); [rewrite skipn_length; lia | lia]. }
+  intros Inv0 Hpl. unfold csv_load_src. destruct (negb (validate_separator sep)); [exact I|].
   unfold s_new.
-  set (s0 := mkS [] (esr_new K text) [] [] 0 0 0 0 0).
-  assert (Hrem0 : remaining s0 = stream_payload K text).
-  { unfold remaining, s0. cbn [s_pos s_buf s_esr skipn app]. exact Hsr. }
-  destruct (s_is_end s0) eqn:He.
+  set (s0 := mkS [] e0 [] [] 0 0 0 0 0).
+  assert (Hrem0 : remaining s0 = stream_rest e0).
+  { unfold CsvStreamProofs.remaining, s0. cbn [s_pos s_buf s_esr skipn app]. reflexivity. }
+  destruct (s_is_end iend s0) eqn:He.
   { unfold s_parse_next_line. rewrite He. exact I. }
-  destruct (s_parse_next_line_total K sep HK s0 (stream_fuel text) Inv0 He) as (s1 & E & Inv1 & RI1 & Hh1 & Hv1 & Hle & _ & Hend1).
-  { rewrite Hrem0. unfold stream_fuel. lia. }
+  destruct (s_parse_next_line_total sep s0 (2 * n + 4)%nat Inv0 He) as (s1 & E & Inv1 & RI1 & Hh1 & Hv1 & Hle & _ & Hend1).
+  { rewrite Hrem0. lia. }
   rewrite E.
   pose proof (s_read_headers_total (length (s_metas s1)) s1 [] RI1) as T.
   assert (H1 : (length (s_metas s1) + s_validx s1 <= length (s_metas s1))%nat) by (rewrite Hv1; subst s0; cbn; lia).
@@ -313,10 +325,22 @@ Proof.
   destruct (s_read_headers (length (s_metas s1)) s1 []) as [[hs s2]|[]| | |]; cbn [s_read_post] in T; try contradiction; try exact I.
   destruct T as ((A1&A2&A3&A4&A5&A6) & T2 & T3 & T4 & T5).
   assert (Hrem : remaining (mkS (s_buf s2) (s_esr s2) hs (s_metas s2) (s_pos s2) (s_line s2) (s_rowidx s2) (s_validx s2) (s_prev s2)) = remaining s1).
-  { unfold remaining. cbn [s_pos s_buf s_esr]. rewrite A1, A3, T3. reflexivity. }
-  apply (s_load_rows_total K sep keys HK).
+  { unfold CsvStreamProofs.remaining. cbn [s_pos s_buf s_esr]. rewrite A1, A3, T3. reflexivity. }
+  apply (s_load_rows_total sep keys).
   - cbn [s_esr]. rewrite A1. exact Inv1.
   - cbn [s_buf s_pos s_esr]. rewrite A1, A3, T2. exact Hend1.
   - rewrite Hrem. rewrite Hrem0 in Hle. lia.
-  - rewrite Hrem. rewrite Hrem0 in Hle. unfold stream_fuel. lia.
+  - rewrite Hrem. rewrite Hrem0 in Hle. lia.
+Qed.
+End SRC.
+
+Arguments csv_load_src_total {Src} rd iend stream_rest esr_inv rd_spec iend_spec.
+
+(* LoadObject<CsvArchive> from a stream is total on every text, for every request and every chunk size *)
+Theorem csv_load_stream_total K sep keys text : (0 < K)%nat -> clean (csv_load_stream K sep keys text).
+Proof.
+  intros HK. destruct (esr_new_spec K text HK) as [Hsr Inv0]. unfold csv_load_stream.
+  apply (csv_load_src_total (esr_read_chunk K) esr_is_end esr_rest esr_ok
+           (fun e Inv => esr_read_chunk_spec K e HK Inv) esr_iend_spec); [exact Inv0|].
+  rewrite Hsr. apply stream_payload_length.
 Qed.
